@@ -119,7 +119,7 @@ class MosFile:
             'roElementAction': ElementAction,
         }
         for tag, subcls in tag_class_map.items():
-            if xml.find(tag):
+            if xml.find(tag) is not None:
                 if subcls == ElementAction:
                     return ElementAction._classify(xml)
                 return subcls(xml)
@@ -1289,7 +1289,7 @@ class ElementAction(MosFile):
         Classify the MOS type and return an instance of the relevant class
         """
         ea = xml.find('roElementAction')
-        operation = ea.attrib['operation']
+        operation = ea.attrib.get('operation')
 
         # are there any itemID tags in element_target?
         try:
@@ -1298,11 +1298,14 @@ class ElementAction(MosFile):
             target_item = False
 
         # are there any itemID tags in element_source?
-        source_item = len(ea.find('element_source').findall('itemID')) > 0
+        try:
+            source_item = len(ea.find('element_source').findall('itemID')) > 0
+        except AttributeError:
+            raise UnknownMosFileType("Unable to determine MOS file type") from None
 
         # use the combination of operation, target_item and source_item to
         # determine the subclass
-        subcls = {
+        subclasses = {
             # (operation, target, item): subcls
             ('REPLACE', False, False): EAStoryReplace,
             ('REPLACE', True, False): EAItemReplace,
@@ -1314,7 +1317,11 @@ class ElementAction(MosFile):
             ('SWAP', False, True): EAItemSwap,
             ('MOVE', False, False): EAStoryMove,
             ('MOVE', True, True): EAItemMove,
-        }[(operation, target_item, source_item)]
+        }
+        try:
+            subcls = subclasses[(operation, target_item, source_item)]
+        except KeyError:
+            raise UnknownMosFileType("Unable to determine MOS file type") from None
         return subcls(xml)
 
     @property
